@@ -140,6 +140,14 @@ void SerialAssembleAction::onStop()
     AssembleAction::onStop();
 }
 
+void SerialAssembleAction::onFinished(bool is_succ, const Reason &why, const Trace &trace)
+{
+    //! 有可能不是子动作自然结束引起的finish（如动作超时），这时正在执行的子动作要停掉，不能让它继续运行
+    stopCurrAction();
+    child_finish_func_ = nullptr;
+    AssembleAction::onFinished(is_succ, why, trace);
+}
+
 void SerialAssembleAction::onReset()
 {
     curr_action_ = nullptr;
